@@ -4,7 +4,7 @@
 From Coq Require Import NArith ZArith List Bool String.
 Import ListNotations.
 From Y Require Import Prelude Node Re Resolve Images Tables NodeOps Types Recognize Loader Hooks Represent DumpProofs RoundTrip
-                      PlainRoundTrip SweetenKeeps.
+                      PlainRoundTrip SweetenKeeps ClassRoundTrip.
 Open Scope N_scope.
 
 (* A string that the dumper's resolver regards as a plain str -- and may therefore write without quotes -- is a str for
@@ -47,7 +47,7 @@ Theorem C05_roundtrip_partial : forall o reg T,
 Proof.
   intros o reg T HK plain_ok fuel v n HL E. rewrite (C05_reparse_identity o reg HK plain_ok fuel v n HL E). reflexivity.
 Qed.
-(* missing for the full statement: load o reg (Some n) T = Ok v for unambiguous CLASS-typed v (tied and evaluated per case) *)
+(* what remains tied only: class-typed values outside the flat fragment below (hierarchies, hooks, _yatiml_extra, Unions) *)
 
 (* For plain data -- strings, numbers, booleans, null, dates, lists, dicts with hashable pairwise different keys, of every
    size and nesting -- the round trip is proved in full: dumping and loading with no declared type gives back the value,
@@ -60,6 +60,24 @@ Proof.
   rewrite (C05_reparse_identity o reg HK plain_ok FUEL v n HL E). apply load_any_of_represented; assumption.
 Qed.
 Print Assumptions C05_roundtrip_plain_data.
+
+(* For CLASS-typed values the round trip is proved in full on the fragment where "unambiguous" is syntactic: registries
+   without hooks, subclass relations and _yatiml_extra (flat), types built from built-ins, Path, lists, str-keyed dicts,
+   enums, string-likes, classes and Optional of these; values well-typed on the dump side (vt: objects list all their
+   parameters in declaration order, Paths in normal form, dict keys pairwise different).  Objects of every nesting depth
+   (up to the fuel bound 3*depth + 2 <= 200), every quoting decision of the emitter. *)
+Theorem C05_roundtrip_classes : forall o reg, flat reg ->
+  (forall c k, find_cls reg c = Some k -> In c (c_ancestors k)) -> find_cls reg (u "Path") = None ->
+  forall plain_ok g h v n T, ftype_r reg T = true -> vt o reg h v T = true -> leaves_ok o v = true ->
+  represent o reg g v = Ok n -> (3 * g + 2 <= FUEL)%nat ->
+  load o reg (Some (reparse loader_tbl plain_ok n)) T = Ok v.
+Proof.
+  intros o reg Hflat Hself Hpath plain_ok g h v n T HF HV HL E Hg.
+  rewrite (C05_reparse_identity o reg) with (fuel := g) (v := v); try assumption.
+  - eapply class_roundtrip; eassumption.
+  - intros c k hk x y Ek Eh. destruct (Hflat c k Ek) as ((_ & _ & Hs & _) & _). rewrite Hs in Eh. discriminate Eh.
+Qed.
+Print Assumptions C05_roundtrip_classes.
 
 (* The sweeteners yatiml itself offers for dumping only delete attributes; registries whose sweeten hooks are built from
    them satisfy the hypothesis sweeten_keeps (for the round trip and for tag-freeness alike). *)
@@ -83,3 +101,34 @@ Example C05_ex_plain :
   plain_rt v = true /\ leaves_ok o v = true /\
   (n <- represent o [] FUEL v ;; load o [] (Some (reparse loader_tbl (fun _ => true) n)) TAny) = Ok v.
 Proof. vm_compute. repeat split; reflexivity. Qed.
+
+(* non-vacuity of the class-level theorem: a flat registry with an enum, a nested class, an Optional and a list *)
+Definition ex_cls (name : string) (sh : shape) : cls :=
+  {| c_name := u name; c_bases := [u "object"]; c_ancestors := [u name; u "object"]; c_abstract := false; c_shape := sh;
+     c_recognize := None; c_savorize := None; c_sweeten := None; c_init_ok := fun _ => true; c_str_ok := fun _ => true |}.
+Definition ex_reg : registry :=
+  [ex_cls "Color" (ShEnum [u "red"; u "true"]);
+   ex_cls "Point" (ShObj [{| p_name := u "x"; p_ty := TInt; p_required := true |};
+                          {| p_name := u "label"; p_ty := TUnion [TStr; TNone]; p_required := false |}] false);
+   ex_cls "Shape" (ShObj [{| p_name := u "color"; p_ty := TClass (u "Color"); p_required := true |};
+                          {| p_name := u "pts"; p_ty := TList 0 (TClass (u "Point")); p_required := true |}] false)].
+Definition ex_o : oracle :=
+  [((tag_int, u "1"), Ok (VInt 1)); ((tag_int, u "-2"), Ok (VInt (-2))); ((tag_null, u "null"), Ok VNone)].
+Definition ex_v : value :=
+  VObj (u "Shape") [(u "color", VEnum (u "Color") (u "true"));
+                    (u "pts", VList [VObj (u "Point") [(u "x", VInt 1); (u "label", VStr (u "1e5"))];
+                                     VObj (u "Point") [(u "x", VInt (-2)); (u "label", VNone)]])].
+Example C05_ex_classes_premises :
+  vt ex_o ex_reg 10 ex_v (TClass (u "Shape")) = true /\ leaves_ok ex_o ex_v = true /\ ftype_r ex_reg (TClass (u "Shape")) = true.
+Proof. vm_compute. repeat split; reflexivity. Qed.
+Example C05_ex_classes_flat : flat ex_reg.
+Proof.
+  intros c k H. unfold ex_reg in H. cbn [find_cls] in H.
+  repeat match type of H with (if ?b then _ else _) = _ => destruct b eqn:? end; try discriminate H; injection H as <-;
+    (split; [|match goal with E : ueqb _ c = true |- _ => apply ueqb_eq in E; exact E end]);
+    repeat split; try reflexivity; try (intros X; revert X; vm_compute; intuition discriminate);
+    try (repeat constructor; vm_compute; intuition discriminate).
+Qed.
+Example C05_ex_classes_roundtrip :
+  (n <- represent ex_o ex_reg 10 ex_v ;; load ex_o ex_reg (Some (reparse loader_tbl (fun _ => false) n)) (TClass (u "Shape"))) = Ok ex_v.
+Proof. vm_compute. reflexivity. Qed.
